@@ -1,12 +1,14 @@
 #!/usr/bin/env python3
-"""gen_known_fns.py : (re)writes tables/known_fns.json - the paths (names only) of every function of the tree the rules were
+"""gen_known_fns.py : (re)writes tables/known_fns.json - the paths (names and, for recognising a moved or renamed function, its arity / return type / callee multiset) of every function of the tree the rules were
 written against. vlib/inline.py inlines any function that is NOT in this list into its callers, so that a body moved into a new
 helper is still seen at its anchor. Re-run after a `fix:` commit in /repo that adds a function."""
 import json, os, sys
 sys.path.insert(0, os.path.dirname(os.path.dirname(os.path.abspath(__file__))))
 from vlib import facts
 data, meta = facts.load("thorough")
-fns = sorted({f["q"] for j in data for f in j["fns"] if "{closure" not in f["q"]})
-out = {"_comment": "function paths of /repo at the tree the rules were written against (tree %s); names only" % meta["tree_hash"], "fns": fns}
+from vlib.inline import fingerprint
+fns = {f["q"]: fingerprint(f) for j in data for f in j["fns"] if "{closure" not in f["q"]}
+fns = dict(sorted(fns.items()))
+out = {"_comment": "function paths of /repo at the tree the rules were written against (tree %s); names and, for recognising a moved or renamed function, its arity / return type / callee multiset" % meta["tree_hash"], "fns": fns}
 json.dump(out, open(os.path.join(os.path.dirname(os.path.dirname(os.path.abspath(__file__))), "tables", "known_fns.json"), "w"), indent=0)
 print(len(fns), "functions")
